@@ -385,6 +385,8 @@ func TestC02(t *testing.T) {
 	defer vlib.CleanupScratch()
 	req := []string{"rejected", "nl:LF", "nl:CRLF", "nl:CR", "fault-at-include-depth:0", "fault-at-include-depth:1", "fault-at-include-depth:2", "trace-checked"}
 	h.Require(req...)
+	// failing inputs of the native fuzz arm (thorough tier, driver-run) replay through this campaign
+	vlib.Enum(h, "native-fuzz", false, func(func(string) bool) {}, c02Bytes)
 
 	vlib.Enum(h, "regression-traces", false, func(yield func(traceCase) bool) {
 		for i, c := range c02Traces {
